@@ -164,7 +164,8 @@ static void file_roundtrip(const std::vector<TypedKey> &keys) {
   for (size_t i = 0; i < keys.size(); i++) {
     std::string k = "k" + std::to_string(i);
     // (the setters are given the bracketed spelling of the section for some keys, the getters below the plain one)
-    const char *sec = (i % 3 == 0) ? nullptr : (i % 3 == 1 ? (i % 4 == 1 ? "[A]" : "A") : (i % 4 == 2 ? "[B]" : "B"));
+    // (the section names "ab" and "bA" are different names with the same djb2 hash)
+    const char *sec = (i % 3 == 0) ? nullptr : (i % 3 == 1 ? (i % 4 == 1 ? "[ab]" : "ab") : (i % 4 == 2 ? "[bA]" : "bA"));
     uint64_t b = keys[i].bits;
     // every other key goes through the header's generic econf_setValue() macro (C only: through the shim)
     if (i % 2 == 1 && keys[i].type < 6) {
@@ -211,7 +212,7 @@ static void file_roundtrip(const std::vector<TypedKey> &keys) {
   } g{rd};
   for (size_t i = 0; i < keys.size(); i++) {
     std::string k = "k" + std::to_string(i);
-    const char *sec = (i % 3 == 0) ? nullptr : (i % 3 == 1 ? "A" : "B");
+    const char *sec = (i % 3 == 0) ? nullptr : (i % 3 == 1 ? "ab" : "bA");
     uint64_t b = keys[i].bits;
     std::ostringstream id;
     id << "key " << k << " type " << keys[i].type << " bits 0x" << std::hex << b << std::dec << " after write/read: ";
